@@ -39,6 +39,7 @@ type sclient struct {
 	idx      int
 	st       *xdsshim.SotwStream
 	regStamp int64 // logical time after which every accepted tag must reach this client
+	preReg   *atomic.Int64 // gated joiner: stamp taken when the connection was parked right after its registration (addCon)
 	dead     atomic.Bool
 	fault    string
 	// fault controls
@@ -105,8 +106,10 @@ func serverRun(c *vh.Ctx, i int) {
 
 	var clients []*sclient
 	var cmu sync.Mutex
+	var nextPreReg *atomic.Int64 // set just before a gated joiner connects
 	connect := func(idx int, fault string, fr *rand.Rand) *sclient {
 		cl := &sclient{idx: idx, fault: fault, firstResp: make(chan struct{}), barrier: make(chan struct{}, 8), blocked: make(chan struct{})}
+		cl.preReg, nextPreReg = nextPreReg, nil
 		cl.id = fmt.Sprintf("app-%d.default", idx)
 		switch fault {
 		case "send-error":
@@ -146,6 +149,10 @@ func serverRun(c *vh.Ctx, i int) {
 		case <-time.After(60 * time.Second):
 		}
 		cl.regStamp = clock.Add(1)
+		if cl.preReg != nil && cl.preReg.Load() != 0 {
+			// the server registered the connection (addCon) before it parked at the gate: what was accepted since must reach it
+			cl.regStamp = cl.preReg.Load()
+		}
 		cmu.Lock()
 		clients = append(clients, cl)
 		cmu.Unlock()
@@ -199,6 +206,17 @@ func serverRun(c *vh.Ctx, i int) {
 	}
 	close(next)
 	var fmu sync.Mutex
+	gatedJoin := withFaults && i%2 == 1
+	if gatedJoin && lateJoiners == 0 {
+		joinAt[5+int(joinSeeds[1]%int64(ntags-5)+int64(ntags-5))%(ntags-5)] = true
+	}
+	var (
+		gateUsed, gateWatchdog bool
+		gateRelease            chan struct{}
+		gateReleaseAt          int
+		gateJoined             = make(chan struct{})
+	)
+	defer xds.SetVerifGate(nil)
 	applyFaults := func(pos int) {
 		fmu.Lock()
 		defer fmu.Unlock()
@@ -233,10 +251,45 @@ func serverRun(c *vh.Ctx, i int) {
 				cl.dead.Store(true)
 			}
 		}
+		if gateRelease != nil && pos >= gateReleaseAt {
+			close(gateRelease)
+			gateRelease = nil
+		}
 		if joinAt[pos] {
 			joinAt[pos] = false
 			idx := 100 + pos
-			connect(idx, "none", rand.New(rand.NewSource(joinSeeds[pos%3])))
+			if gatedJoin && !gateUsed {
+				// The joiner is parked right after the server registered its connection and before its state is computed
+				// (hook H4b), a few notifications are accepted meanwhile, then it goes on: each of them must reach it.
+				gateUsed = true
+				parked, release := make(chan struct{}), make(chan struct{})
+				var armed atomic.Bool
+				armed.Store(true)
+				xds.SetVerifGate(func(point string) {
+					if point == "ads.initializeProxy.start" && armed.CompareAndSwap(true, false) {
+						close(parked)
+						<-release
+					}
+				})
+				pre := &atomic.Int64{}
+				nextPreReg = pre
+				fr := rand.New(rand.NewSource(joinSeeds[pos%3]))
+				go func() {
+					defer close(gateJoined)
+					connect(idx, "none", fr)
+				}()
+				select {
+				case <-parked:
+					pre.Store(clock.Add(1))
+					gateRelease, gateReleaseAt = release, pos+2+int(joinSeeds[0]%6+6)%6
+					c.Count("server_gated_joiners_parked", 1)
+				case <-time.After(30 * time.Second): // watchdog, not a verdict
+					close(release)
+					gateWatchdog = true
+				}
+			} else {
+				connect(idx, "none", rand.New(rand.NewSource(joinSeeds[pos%3])))
+			}
 		}
 	}
 	for g := 0; g < nissuers; g++ {
@@ -260,6 +313,21 @@ func serverRun(c *vh.Ctx, i int) {
 		}()
 	}
 	wg.Wait()
+	if gateRelease != nil {
+		close(gateRelease)
+		gateRelease = nil
+	}
+	if gateUsed {
+		select {
+		case <-gateJoined:
+		case <-time.After(90 * time.Second): // watchdog
+			gateWatchdog = true
+		}
+	}
+	if gateWatchdog {
+		c.Inconclusive("gated joiner did not get through (watchdog)")
+		return
+	}
 	// a send-error client is considered dead from its scheduled point; clients that were scheduled to block and
 	// were never released must be released now so that the run can quiesce (they stay "live": everything must reach them)
 	cmu.Lock()
